@@ -12,6 +12,7 @@ import (
 	"verif/internal/cat"
 	"verif/internal/gen"
 	"verif/internal/harness"
+	"verif/internal/hostile"
 	"verif/internal/spec"
 )
 
@@ -320,4 +321,29 @@ func TestQuantityAxes(t *testing.T) {
 		}
 	}
 	harness.Exhaustive("request-roundtrip", "every fc5 coil value 0..65535 x {tcp,rtu}", 2*65536)
+}
+
+// TestForeignLookingLegalRequests: legal requests whose bytes coincide with another framing's magic. RTU requests for unit 58 (':')
+// whose CRC is 0x0A0D end in CR LF - the delimiters of Modbus ASCII; the address that produces that CRC is found by search.
+func TestForeignLookingLegalRequests(t *testing.T) {
+	idx := 0
+	for _, unit := range []uint8{58, 0x7E} {
+		for _, fc := range []uint8{1, 2, 3, 4} {
+			for _, qty := range []uint16{1, 2, 6, 100, 103, 125} {
+				idx++
+				if !harness.Mine(idx) {
+					continue
+				}
+				for _, want := range []uint16{0x0A0D, 0x0D0A, 0x0000, 0xFFFF} {
+					r, ok := hostile.ReadRequestWithCRC(unit, fc, qty, want)
+					if !ok {
+						continue
+					}
+					if !chkReq.Eval(t, reqCase{Framing: spec.RTU, Req: r}) {
+						return
+					}
+				}
+			}
+		}
+	}
 }
